@@ -205,7 +205,7 @@ def run_shard(shard, tier, seed):
             fp = "C06/%s" % clause
             if "MatchesSetwise" in e.name and clause == "verdict":
                 fp = "C06/setwise-greedy"
-            if "MatchesPredicate" in e.name and clause == "match-raised":
+            if "MatchesPredicate" in e.name and clause == "match-raised" and "not all arguments converted" in msg:
                 fp = "C06/match-raised/MatchesPredicate-tuple"
             res.violation(fp, msg, {"expr": e.name, "tier": tier})
     if mine and shard[1] % 7 == 0:
